@@ -131,6 +131,15 @@ theorem optimal_simple (flip : Bool) (xm ym : Metric) (N : Nat) (groups : List (
   rw [hobj, hm]
   exact le_trans h1 h2
 
+/-- the reported objective is the `len(group) / n`-weighted sum of the `y` of every group's interpolated curve at `x_best`;
+    by `C04.fit_predict_consistent_simple` that `y` is the group's expected objective metric computed from `_pmf_predict`
+    of the fitted model on its training rows — so the optimality statements are about what `predict` really does -/
+theorem objective_is_weighted_curve (flip : Bool) (xm ym : Metric) (N : Nat) (groups : List (List Row))
+    (force : Option Nat) (fit : Fit) (hfit : fitSimple flip xm ym N groups force = some fit) :
+    fit.objective = (List.zipWith (fun g (r : Interp) => freq groups g * r.y) groups fit.interps).sum := by
+  obtain ⟨_, _, best, _, _, _, hint, _, hobj, _⟩ := fitSimple_some hfit
+  rw [hobj, hint, objSimple_eq]
+
 /-- **tie rule of the arg-max (`Series.idxmax`)**: the fitted grid index is the FIRST grid point attaining the maximum of
     the overall objective curve: no grid point has a larger value and every EARLIER grid point has a strictly smaller one
     (so the fitted rule is a function of the data alone — reproducible — also when several grid points tie) -/
